@@ -11,7 +11,7 @@ from .common import raising_site
 
 import ndn.encoding.ndn_format_0_3 as fmt
 import ndn.encoding.tlv_model as tlv_model
-from ndn.encoding import make_interest, make_data, parse_interest, parse_data, MetaInfo
+from ndn.encoding import make_interest, make_data, parse_interest, parse_data, MetaInfo, InterestParam
 
 RULE = ('Data/Interest built by the real make_* from generated names (all input forms), parameter/MetaInfo '
         'subsets, payload lengths solved to land every enclosing length on 252..254 / 65535..65537 and up to '
@@ -336,8 +336,14 @@ def do_interest(ctx, rng, comps, param, pexp, app_param, kind, placeholder_at=No
     return wire
 
 
-def solve(make_len, target, start=0):
+def solve(make_len, target, start=0, ctx=None, what='packet'):
     """Find payload length L such that make_len(L) == target (outer total length), if reachable."""
+    if ctx is not None:
+        try:
+            return solve(make_len, target, start)
+        except Exception as e:   # noqa  (the encoder refused inputs it accepts on the unchanged tree: a finding, not a harness fault)
+            ctx.report(f'make-{what}-raises:{type(e).__name__}@{raising_site(e)[0]}', f'encoding raised {e!r} while a boundary length was being solved', None)
+            return None
     L = start
     for _ in range(6):
         cur = make_len(L)
@@ -349,10 +355,36 @@ def solve(make_len, target, start=0):
     return L if make_len(L) == target else None
 
 
+def check_raw_text_names(ctx):
+    """Packet names given as text with raw non-ASCII characters (also sequences outside every Unicode normal form): the name on the
+    wire, the name parsed back and the returned final name are the UTF-8 octets of exactly that text."""
+    from .c09 import RAW_TEXTS
+    for t in RAW_TEXTS:
+        exp = [rc.comp(8, b'pre'), rc.comp(8, t.encode('utf-8')), rc.comp(8, b'x')]
+        for label, nm in (('uri', '/pre/' + t + '/x'), ('list', ['pre', t, 'x']), ('mixed', [rc.comp(8, b'pre'), t, bytearray(b'\x08\x01x')])):
+            w = {'text': t, 'form': label}
+            try:
+                iw, final = make_interest(nm, InterestParam(nonce=3), need_final_name=True)
+                dw = make_data(nm, MetaInfo(), b'c', None)
+                ri, rd = rc.strict_interest(bytes(iw)), rc.strict_data(bytes(dw))
+                pi, pd = parse_interest(bytes(iw))[0], parse_data(bytes(dw))[0]
+            except Exception as e:   # noqa
+                ctx.report(f'raw-text-name-raises:{type(e).__name__}@{raising_site(e)[0]}', f'{e!r}', w)
+                continue
+            ctx.case(('raw-text-name', t, label), nontrivial=True)
+            ctx.event('raw-text-packet-name')
+            if ri['name'] != exp or rd['name'] != exp:
+                ctx.report('interest-ref-field:name-or-digest' if ri['name'] != exp else 'data-ref-field:name', 'the name on the wire is not the UTF-8 octets of the text given', w)
+            if [bytes(c) for c in pi] != exp or [bytes(c) for c in pd] != exp or [bytes(c) for c in final] != exp:
+                ctx.report('interest-parse-field:name-or-digest', 'the parsed / returned name is not the UTF-8 octets of the text given', w)
+
+
 def run(ctx):
     ctx.rule = RULE
     install_hooks(ctx)
     rng = ctx.rng
+    if ctx.shard == 0:
+        check_raw_text_names(ctx)
     kinds = pkts.SIGNER_KINDS
     lens = pkts.payload_lengths()
     n = ctx.n(1500, 600000)
@@ -377,7 +409,7 @@ def run(ctx):
 
             def ml(L):
                 return len(make_data(comps, MetaInfo(), b'x' * L, st[0]))
-            L = solve(ml, tg, max(0, tg - 120))
+            L = solve(ml, tg, max(0, tg - 120), ctx, 'data')
             if L is None:
                 ctx.event('solve-miss')
                 continue
@@ -389,7 +421,7 @@ def run(ctx):
 
                 def mli(L):
                     return len(make_interest(comps, prm, b'y' * L, st2[0]))
-                L2 = solve(mli, tg, max(0, tg - 150))
+                L2 = solve(mli, tg, max(0, tg - 150), ctx, 'interest')
                 if L2 is not None:
                     do_interest(ctx, rng, comps, prm, pexp, gen.rand_bytes(rng, L2), st2[1]['kind'], target=tg, sinfo_tuple=st2)
 
@@ -403,7 +435,7 @@ def run(ctx):
                 def ml(L):
                     return len(make_data(comps, MetaInfo(), b'x' * L, pkts.VarSigner(r, r, None)))
                 # target the *unshrunk* length so the shrink crosses the boundary
-                L = solve(ml, tg + (r - wlen) if rng.random() < 0.5 else tg, 0)
+                L = solve(ml, tg + (r - wlen) if rng.random() < 0.5 else tg, 0, ctx, 'packet')
                 if L is None:
                     continue
                 do_data(ctx, rng, comps, MetaInfo(), {'has_meta': True, 'content_type': 0, 'freshness': None, 'final_block': None},
